@@ -293,7 +293,7 @@ pub struct Eng {
 }
 
 fn pat(seed: u64, i: usize) -> u8 {
-    let x = seed.wrapping_mul(0x9e3779b97f4a7c15).wrapping_add(i as u64 * 0x100000001b3);
+    let x = seed.wrapping_mul(0x9e3779b97f4a7c15).wrapping_add((i as u64).wrapping_mul(0x100000001b3));
     ((x >> 29) as u8) | 1
 }
 
@@ -456,7 +456,7 @@ impl Eng {
             let l = l.max(1) as usize;
             let mut b = vec![0u8; l].into_boxed_slice();
             for (i, x) in b.iter_mut().enumerate() {
-                *x = pat(order * 131 + bi as u64, i);
+                *x = pat(order.wrapping_mul(131).wrapping_add(bi as u64), i);
             }
             ins.push(b);
         }
@@ -731,7 +731,7 @@ impl Eng {
         let sub = self.subs.get_mut(&token).unwrap();
         let cap = sub.chain.writable_len();
         let wl = (written as usize * (cap + 1)) >> 16;
-        let data: Vec<u8> = (0..wl).map(|i| pat(sub.order * 977 + 5, i) ^ 0x80).collect();
+        let data: Vec<u8> = (0..wl).map(|i| pat(sub.order.wrapping_mul(977).wrapping_add(5), i) ^ 0x80).collect();
         let chain = sub.chain.clone();
         sub.written = Some(data.clone());
         with(|w| {
@@ -1027,7 +1027,7 @@ impl Eng {
             self.fetch()?;
             let mut k = 0u16;
             while !self.dev_out.is_empty() {
-                k = k.wrapping_add(l.rot as u16 * 9973 + r as u16);
+                k = k.wrapping_add((l.rot as u16).wrapping_mul(9973).wrapping_add(r as u16));
                 self.complete(k, k)?;
             }
             if r % 7 == 3 {
